@@ -24,6 +24,7 @@ PARAMS = "src/optimizer/parameters.py"
 RUN = "src/scenarios/run_scenario.py"
 VAL = "src/optimizer/validate_results.py"
 OPT = "src/optimizer/optimizer.py"
+ANIMALS = "src/food_system/animal_populations.py"
 INT = "src/optimizer/interpret_results.py"
 
 
@@ -193,8 +194,20 @@ def wire(index, rep, flow):
             okr = norm_src(red[0].value).replace(" ", "") in (
                 f"{tname}.in_units_bil_kcals_thou_tons_thou_tons_per_month()*(1-epsilon)",
                 f"(1-epsilon)*{tname}.in_units_bil_kcals_thou_tons_thou_tons_per_month()")
-            t = norm_src(asserts[0].test).replace(" ", "")
-            oka = t in (f"np.all(({demand}-{rname}).kcals>-1e-06)", f"(({demand}-{rname}).kcals>-1e-06).all()")
+            # all(-1e-06 < (demand - reduced use).kcals)   (comparisons are read in canonical orientation, see canon.py)
+            t = asserts[0].test
+            inner = None
+            if isinstance(t, ast.Call) and dotted(t.func) == "np.all" and len(t.args) == 1:
+                inner = t.args[0]
+            elif isinstance(t, ast.Call) and isinstance(t.func, ast.Attribute) and t.func.attr == "all" and not t.args:
+                inner = t.func.value
+            oka = False
+            if isinstance(inner, ast.Compare) and len(inner.ops) == 1 and isinstance(inner.ops[0], (ast.Lt, ast.LtE)):
+                try:
+                    bound = float(ast.literal_eval(inner.left))
+                except Exception:
+                    bound = None
+                oka = bound is not None and -1e-6 <= bound <= 0 and norm_src(inner.comparators[0]).replace(" ", "") == f"({demand}-{rname}).kcals"
             ok = okr and oka and norm_src(total[0].value) == f"Validator.{summer}({res})"
         rep.check(ok and eps_default is not None and eps_default <= 1e-4, rule, f"{name}:raises-on-excess",
                   "the validator no longer asserts  demand - used x (1 - eps) > -1e-6  (eps <= 1e-4) on the round's total use: an excess would "
@@ -251,10 +264,10 @@ def ceil(index, rep, flow):
         rep.check(org == want, rule, f"round2:{key}", f"the biofuel ceiling of the feed-maximising round originates from {sorted(org)}, "
                   f"expected the biofuel demand schedule", loc=loc(PARAMS, st[0]))
     # the feed ceiling is the feed the round-2 herd ate when offered the feed demand
-    herd = [c for c in walk_no_nested(fn) if isinstance(c, ast.Call) and dotted(c.func) == "CalculateFeedAndMeat"]
-    if len(herd) != 1:
+    hf = herd_feeds(index, fn)
+    if len(hf) != 1:
         raise AnalysisError("compute_parameters_second_round: CalculateFeedAndMeat(...) not found")
-    af = [k.value for k in herd[0].keywords if k.arg == "available_feed"]
+    herd, af = [hf[0][0]], [hf[0][1]]
     org = flow.origin(fn, af[0], before=herd[0].lineno) if af else {"?"}
     rep.check(org == {"src:get_feed_usage"}, rule, "round2:herd-offered-the-feed-demand",
               f"the round-2 herd is offered {sorted(org)} instead of the feed demand schedule", loc=loc(PARAMS, herd[0]))
@@ -284,8 +297,9 @@ def pin(index, rep, flow):
     call = [c for c in walk_no_nested(rr2) if isinstance(c, ast.Call) and dotted(c.func) == "self.run_optimizer"]
     if len(call) != 1:
         raise AnalysisError("run_round_2: run_optimizer call not found")
-    kw = {k.arg: k.value for k in call[0].keywords}
-    ok = "min_human_food_consumption" in kw and norm_src(kw.get("optimization_type")) == "'to_animals'"
+    from .core import bind_args as _ba0
+    kw = _ba0(call[0], index.func(RUN, "ScenarioRunner.run_optimizer"))   # by parameter, however the call spells its arguments
+    ok = "min_human_food_consumption" in kw and "optimization_type" in kw and norm_src(kw.get("optimization_type")) == "'to_animals'"
     org = flow.origin(rr2, kw["min_human_food_consumption"], before=call[0].lineno) if ok else {"?"}
     rep.check(ok and org == {"src:calculate_human_consumption_for_min_needs"}, rule, "round2:pins-the-round1-hand-off",
               f"the human consumption pinned in round 2 originates from {sorted(org)}, expected calculate_human_consumption_for_min_needs",
@@ -297,12 +311,12 @@ def pin(index, rep, flow):
     rep.check(okc, rule, "round2:uses-round2-constants",
               f"round 2 is not solved with (constants, monthly constants) returned by compute_parameters_second_round: {[a[:70] for a in args]}", loc=loc(RUN, call[0]))
     ro = index.func(RUN, "ScenarioRunner.run_optimizer")
-    from .core import find_call as _fc
+    from .core import find_call as _fc, ctor_values
     fc2 = _fc(index.methods(RUN, "ScenarioRunner"), ro, "optimize_feed_to_animals")   # in run_optimizer, or in a dispatch helper it calls
     RP = [a.arg for a in ro.args.args]
     hand = [p_ for p_ in RP if "min_human" in p_ or "human_food" in p_]
     ok = fc2 is not None and len(hand) == 1 and [fc2[2].src(a) for a in fc2[1].args] == [RP[1], RP[2], hand[0]] and \
-        fc2[2].src(fc2[1].func.value) == f"Optimizer({RP[1]}, {RP[2]})"
+        ctor_values(fc2[2].src(fc2[1].func.value), "Optimizer") == [RP[1], RP[2]]
     rep.check(ok, rule, "run_optimizer:passes-hand-off", "run_optimizer does not pass the hand-off to optimize_feed_to_animals", loc=loc(RUN, ro))
     of = index.func(OPT, "Optimizer.optimize_feed_to_animals")
     st = [s for s in of.body if isinstance(s, ast.Assign) and norm_src(s.targets[0]) == "self.time_consts['min_human_food_consumption']"]
@@ -319,6 +333,38 @@ def pin(index, rep, flow):
     rep.check(ok, rule, "round2:parameters-from-round1", "compute_parameters_second_round does not receive round 1's constants and results by position",
               loc=loc(RUN, rr2))
     rep.require_min(rule, 6)
+
+
+def herd_feeds(index, fn):
+    """the herd simulations a function starts: [(call node, expression handed over as available_feed, in the function's own terms)] for
+    CalculateFeedAndMeat(...) constructions in the function itself or in a same-class helper it calls whose every exit returns one"""
+    from .core import HelperView, bind_args
+    methods = index.methods(PARAMS, "Parameters")
+    cfm = index.func(ANIMALS, "CalculateFeedAndMeat.__init__") if ANIMALS else None
+    out = []
+    inl = Inliner(fn)
+    for c in walk_no_nested(fn):
+        if not isinstance(c, ast.Call):
+            continue
+        if dotted(c.func) == "CalculateFeedAndMeat":
+            b = bind_args(c, cfm) if cfm is not None else {k.arg: k.value for k in c.keywords}
+            if "available_feed" in b:
+                out.append((c, b["available_feed"]))
+        elif isinstance(c.func, ast.Attribute) and isinstance(c.func.value, ast.Name) and c.func.value.id == "self" and c.func.attr in methods \
+                and methods[c.func.attr] is not fn:
+            h = methods[c.func.attr]
+            rets = [r for r in walk_no_nested(h) if isinstance(r, ast.Return)]
+            if rets and all(isinstance(r.value, ast.Call) and dotted(r.value.func) == "CalculateFeedAndMeat" for r in rets):
+                class _Id:
+                    def expr(self, e):
+                        from .core import _strip_parents
+                        return _strip_parents(e)
+                hv = HelperView(_Id(), c, h)
+                for r in rets:
+                    b = bind_args(r.value, cfm) if cfm is not None else {k.arg: k.value for k in r.value.keywords}
+                    if "available_feed" in b:
+                        out.append((c, hv.expr(b["available_feed"])))
+    return out
 
 
 def bump_slots(index):
@@ -442,12 +488,15 @@ def r3(index, rep, flow):
               loc=loc(PARAMS, fn))
     rep.check(okc and "in_units_bil_kcals_thou_tons_thou_tons_per_month()" in stores.get("biofuel", ""), rule,
               "round3:biofuel-from-round2", "round 3's biofuel charge is not the biofuel found in round 2", loc=loc(PARAMS, fn))
-    herd = [x for x in walk_no_nested(fn) if isinstance(x, ast.Call) and dotted(x.func) == "CalculateFeedAndMeat"]
-    afn = [k.value for x in herd for k in x.keywords if k.arg == "available_feed"]
+    afn = [e_ for _, e_ in herd_feeds(index, fn)]
     ok = len(afn) == 1 and len(r2) == 1
     fs = []
     if ok:
-        if isinstance(afn[0], ast.Name) and afn[0].id in inl.defs:
+        if isinstance(afn[0], ast.BinOp) and isinstance(afn[0].op, ast.Mult) and isinstance(afn[0].right, ast.Constant) \
+                and isinstance(afn[0].right.value, float) and 0.9 <= afn[0].right.value <= 1 and not (isinstance(afn[0].left, ast.Name) and len(inl.defs.get(afn[0].left.id, [])) > 1):
+            fs = [inl.src(afn[0].left)]          # the round-2 feed scaled down by a constant <= 1
+            ok = fs[0].startswith(f"{r2[0]}.feed_sum_kcals_equivalent.")
+        elif isinstance(afn[0], ast.Name) and afn[0].id in inl.defs:
             nm = afn[0].id
             fs = [norm_src(d).replace(" ", "") if d is not None else "?" for d in sorted(inl.defs[nm], key=lambda d: getattr(d, "lineno", 0) if d is not None else 0)]
             ok = fs[0].startswith(f"{r2[0]}.feed_sum_kcals_equivalent.") and all(
